@@ -7,6 +7,7 @@ resynchronisation).  Hash = structural identity of the tree.
 -/
 import DoltVerif.Lemmas.Mutate
 import DoltVerif.Lemmas.LeafRegions
+import DoltVerif.Lemmas.TreeMutate
 namespace DoltVerif.C12
 open DoltVerif.Prolly DoltVerif.SortedDict
 
@@ -67,8 +68,8 @@ content". -/
 theorem leaf_partition {κ ν : Type} [BEq κ] [BEq ν] [Inhabited κ] {cmp : κ → κ → Ordering}
     (hc : TotalPreorder cmp) (leaves : List (NodeH κ ν 0)) (es : Edits κ ν) (hne : leaves ≠ [])
     (hleaf : ∀ l ∈ leaves, l ≠ []) (hs : Sorted cmp (leaves.flatten : List (κ × ν))) :
-    ((leafRegions cmp leaves es false).flatMap (·.new) : List (κ × ν)) = applyEdits cmp leaves.flatten es :=
-  leafRegions_content hc leaves es false hne hleaf hs
+    ((leafRegions cmp leaves es false true).flatMap (·.new) : List (κ × ν)) = applyEdits cmp leaves.flatten es :=
+  leafRegions_content hc leaves es false true hne hleaf hs
 
 /-- **History independence at one level.**  Two edit histories over possibly different old node
 lists (different ancestors, different batching, different resync points) that arrive at the same
@@ -177,5 +178,140 @@ theorem mutate_canonical_refuted : ¬ mutate_canonical_full := by
     rw [h2] at h1
     revert h1
     decide
+
+/-! ### the tree-level theorem under the hypothesis the witness forces -/
+
+section TreeLevel
+variable {σ κ ν : Type} [Inhabited κ] [BEq κ] [BEq ν] [LawfulBEq κ] [LawfulBEq ν]
+
+/-- **`mutate_canonical_partial`.**  Let `t` be the bulk-built tree of a sorted non-empty content
+`X`, in which no node ended because the next item did not fit (`MutHyp.no_overflow`, the
+NoOverflowBoundary hypothesis — exactly what `mutate_canonical_refuted` shows cannot be dropped).
+Then for every sorted edit batch, every splitter family and capacity, `ApplyMutations t es`
+— wherever its chunkers resynchronise, whichever nodes it reuses, and whether the tree grows or
+shrinks in height — returns the bulk-built tree of the edited content.  Stated on the success
+path of both sides (`h1`, `h2`); `hok'` excludes the `append` panics on the edited content and
+`SingleOk` says a lone item at an internal level forms one node. -/
+theorem mutate_canonical_partial {C : Cfg σ κ ν} {cmp : κ → κ → Ordering} {X : List (κ × ν)} {es : Edits κ ν}
+    (H : MutHyp C cmp X es) (hs : SingleOk C)
+    (hok' : ∀ n, (C n).chunkOk (levelItems C n (applyEdits cmp X es)) = true)
+    (t t1 t2 : Tree κ ν) (hb : build C X = .ok t)
+    (h1 : applyMutations C cmp t es = .ok t1) (h2 : build C (applyEdits cmp X es) = .ok t2) : t1 = t2 :=
+  mutate_canonical_core H hs hok' t t1 t2 hb h1 h2
+
+/-- the same from the empty tree (no hypothesis on an old tree is needed) -/
+theorem mutate_canonical_from_empty {C : Cfg σ κ ν} {cmp : κ → κ → Ordering} {es : Edits κ ν} (hs : SingleOk C)
+    (hok' : ∀ n, (C n).chunkOk (levelItems C n (applyEdits cmp [] es)) = true) (t1 t2 : Tree κ ν)
+    (h1 : applyMutations C cmp ⟨0, []⟩ es = .ok t1) (h2 : build C (applyEdits cmp [] es) = .ok t2) : t1 = t2 :=
+  mutate_canonical_empty hs hok' t1 t2 h1 h2
+
+/-- a construction history: batches applied one after the other through `ApplyMutations` -/
+def runHistory (C : Cfg σ κ ν) (cmp : κ → κ → Ordering) (t : Tree κ ν) : List (Edits κ ν) → Except BuildErr (Tree κ ν)
+  | [] => .ok t
+  | es :: rest =>
+    match applyMutations C cmp t es with
+    | .ok t' => runHistory C cmp t' rest
+    | .error e => .error e
+
+/-- the content a history ends in -/
+def contentAfter (cmp : κ → κ → Ordering) (X : List (κ × ν)) (bs : List (Edits κ ν)) : List (κ × ν) :=
+  bs.foldl (applyEdits cmp) X
+
+/-- every step of the history satisfies the hypotheses of `mutate_canonical_partial` -/
+def GoodHistory (C : Cfg σ κ ν) (cmp : κ → κ → Ordering) : List (κ × ν) → List (Edits κ ν) → Prop
+  | _, [] => True
+  | X, es :: rest =>
+    (X = [] ∨ MutHyp C cmp X es) ∧
+    (∀ n, (C n).chunkOk (levelItems C n (applyEdits cmp X es)) = true) ∧
+    (∃ t', build C (applyEdits cmp X es) = .ok t') ∧
+    GoodHistory C cmp (applyEdits cmp X es) rest
+
+theorem build_nil (C : Cfg σ κ ν) : build C ([] : List (κ × ν)) = .ok ⟨0, []⟩ := by
+  simp [build, LevelCfg.chunkOk, LevelCfg.feedOk, LevelCfg.chunk, LevelCfg.feed, St.flush, LevelCfg.fresh, rootOf]
+
+/-- **a whole history ends in the bulk-built tree of its final content** -/
+theorem history_canonical_partial {C : Cfg σ κ ν} {cmp : κ → κ → Ordering} (hs : SingleOk C) :
+    ∀ (bs : List (Edits κ ν)) (X : List (κ × ν)) (t t' : Tree κ ν), build C X = .ok t →
+      GoodHistory C cmp X bs → runHistory C cmp t bs = .ok t' → build C (contentAfter cmp X bs) = .ok t'
+  | [], X, t, t', hb, _, hr => by
+    simp only [runHistory, Except.ok.injEq] at hr
+    rw [← hr]; exact hb
+  | es :: rest, X, t, t', hb, hg, hr => by
+    obtain ⟨hX, hok', ⟨t2, h2⟩, hrest⟩ := hg
+    simp only [runHistory] at hr
+    cases h1 : applyMutations C cmp t es with
+    | error e => rw [h1] at hr; cases hr
+    | ok t1 =>
+      rw [h1] at hr
+      simp only at hr
+      have heq : t1 = t2 := by
+        rcases hX with hX | hX
+        · subst hX
+          rw [build_nil] at hb
+          cases hb
+          exact mutate_canonical_empty hs hok' t1 t2 h1 h2
+        · exact mutate_canonical_core hX hs hok' t t1 t2 hb h1 h2
+      rw [← heq] at h2
+      exact history_canonical_partial hs rest (applyEdits cmp X es) t1 t' h2 hrest hr
+
+/-- **`history_independent_partial`.**  Two construction histories — different starting contents,
+different batchings, insertions, deletions, re-insertions, height growing and shrinking — that
+satisfy the NoOverflowBoundary hypothesis at every step and end in the same content end in the
+same tree (same root hash, identical chunks: the tree is its own structural identity). -/
+theorem history_independent_partial {C : Cfg σ κ ν} {cmp : κ → κ → Ordering} (hs : SingleOk C)
+    (X₁ X₂ : List (κ × ν)) (bs₁ bs₂ : List (Edits κ ν)) (t₁ t₂ t₁' t₂' : Tree κ ν)
+    (hb₁ : build C X₁ = .ok t₁) (hb₂ : build C X₂ = .ok t₂)
+    (hg₁ : GoodHistory C cmp X₁ bs₁) (hg₂ : GoodHistory C cmp X₂ bs₂)
+    (hr₁ : runHistory C cmp t₁ bs₁ = .ok t₁') (hr₂ : runHistory C cmp t₂ bs₂ = .ok t₂')
+    (hsame : contentAfter cmp X₁ bs₁ = contentAfter cmp X₂ bs₂) : t₁' = t₂' := by
+  have h1 := history_canonical_partial hs bs₁ X₁ t₁ t₁' hb₁ hg₁ hr₁
+  have h2 := history_canonical_partial hs bs₂ X₂ t₂ t₂' hb₂ hg₂ hr₂
+  rw [hsame, h2] at h1
+  cases h1; rfl
+
+end TreeLevel
+
+/-! non-vacuity of `MutHyp` / `mutate_canonical_partial`: a two-level tree over numbers, boundary
+after every second item, weightless items (so the capacity rule never fires) -/
+namespace Example
+def every2 {α : Type} : Splitter Nat α := ⟨0, fun s _ => (s + 1, s + 1 == 2)⟩
+def C : Cfg Nat Nat Nat := fun n => { sp := every2, weight := fun _ => 0, cap := 10, leaf := n == 0 }
+def X : List (Nat × Nat) := [(1, 10), (2, 20), (3, 30), (4, 40), (5, 50)]
+def es : Edits Nat Nat := [(3, none), (6, some 60)]
+
+theorem size_zero (n : Nat) (cur : List (ItemH Nat Nat n)) : (C n).size cur = 0 := by
+  unfold LevelCfg.size
+  induction cur with
+  | nil => rfl
+  | cons x xs ih => simp only [List.map_cons, List.sum_cons, ih]; rfl
+
+theorem noOvf (n : Nat) : ∀ (xs : List (ItemH Nat Nat n)) (st : St Nat (ItemH Nat Nat n)),
+    (C n).feedNoOvf st xs = true
+  | [], _ => rfl
+  | x :: xs, st => by
+    simp only [LevelCfg.feedNoOvf, Bool.and_eq_true, Bool.not_eq_true']
+    refine ⟨?_, noOvf n xs _⟩
+    simp only [LevelCfg.overflow, size_zero]
+    show decide (10 < 0 + 0) = false
+    rfl
+
+theorem natTotal : TotalPreorder (compare : Nat → Nat → Ordering) where
+  swap_lt a b := by simp [Nat.compare_eq_lt, Nat.compare_eq_gt]
+  le_trans a b c := by simp only [ne_eq, Nat.compare_eq_gt]; omega
+
+example : MutHyp C compare X es where
+  cmp_ok := natTotal
+  sorted := by unfold Sorted; decide
+  edits_sorted := by decide
+  nonempty := by decide
+  no_overflow n := noOvf n _ _
+
+example : SingleOk C := singleOk_of C (fun _ => rfl) (fun _ _ => Nat.zero_le _)
+
+/-- the edited tree and the bulk-built tree of the edited content, computed -/
+example : (match build C X with
+    | .ok t => (applyMutations C compare t es).toOption.map observe
+    | .error _ => none) = (build C (applyEdits compare X es)).toOption.map observe := by decide
+end Example
 
 end DoltVerif.C12
